@@ -690,6 +690,7 @@ def run_case(case):
             brace_expr_in_text=("{" in text and "}" in text),
             empty_completion=(text.strip() == ""),
             llm_wrote_flow_header=text.lstrip("\n ").startswith("flow"),
+            no_bot_intent_line=("bot intent:" not in text),
             serialisation_site=("serialization.py" in problem["mech"]),
             fresh_confirmed=fresh_confirmed,
             witness=dict(
@@ -729,6 +730,9 @@ def classify(r):
     if what == "llm-postprocessing-crashed" and mech.endswith(":generate_flow:AttributeError"):
         # `...` inside LLM generated flow code starts GenerateFlowAction, which needs a docstring nobody set
         return "v2-generated-ellipsis-starts-generate-flow-without-docstring"
+    if what == "llm-postprocessing-crashed" and ":_add_flows_action:" in mech and kind == "v2cont" and r.get("no_bot_intent_line"):
+        # GenerateFlowContinuationAction names the flow after the bot intent; without one the name ends in `None`, a keyword
+        return "v2-flow-continuation-without-bot-intent-is-named-None"
     if what == "llm-postprocessing-crashed" and ":_add_flows_action:" in mech and not mech.endswith(":KeyError") and kind in ("v2cont", "v2single"):
         # these two kinds hand AddFlowsAction a source whose first line is the `@meta(bot_intent=...)` decorator
         return "v2-add-flows-fallback-defeated-by-decorator-line"
